@@ -8,6 +8,16 @@ the link table (symlink = atomic create-or-EEXIST, the property the class relies
 on).  A process table decides kill(pid, 0).  The tape picks which process runs
 next at every call, whether a holder dies inside its critical section (leaving a
 stale link) and whether a stale link exists initially.
+
+Every process keeps ONE lock object for all its attempts and rounds (that is how
+callers such as DeferredFilesystemLock use the class), so whatever the object
+remembers from earlier attempts is part of the state under test.  Liveness is
+checked in three bounded forms: (1) in the run, no waiter may fail STALE_BUDGET
+times in a row against a stale link that nobody touched during those attempts;
+(2) a waiter that never gives up (plain polling, or deferUntilLocked() on its own
+simulated clock) must hold the lock within LONE_BUDGET attempts once every other
+process has finished or died; (3) after the run each surviving process returns
+alone with its used object, then a fresh contender with a fresh object.
 """
 import copy
 import errno
@@ -24,12 +34,20 @@ LEVEL = "exploration"
 TECHNIQUE = "deterministic simulation: real lock()/unlock() on baton-passing threads, tape-chosen interleaving at every intercepted filesystem call, process death as fault"
 QUICK_RUNS = 4000
 BATCH = 60
-COMPONENTS = {"real": ["twisted.python.lockfile.FilesystemLock.lock/unlock", "twisted.python.lockfile.isLocked"],
-              "stub": ["symlink/readlink/remove/kill/getpid (in-memory link + process tables, atomic per call)", "process scheduling (baton threads, tape-chosen)"]}
+COMPONENTS = {"real": ["twisted.python.lockfile.FilesystemLock.lock/unlock", "twisted.python.lockfile.isLocked",
+                       "twisted.internet.defer.DeferredFilesystemLock.deferUntilLocked (polling waiter, no timeout)"],
+              "stub": ["symlink/readlink/remove/kill/getpid (in-memory link + process tables, atomic per call)", "process scheduling (baton threads, tape-chosen)",
+                       "each polling waiter's IReactorTime (detsim SimClock, advanced one interval per poll)"]}
 RULE = ("run = 2..4 simulated processes each doing 1..3 rounds of lock -> critical section -> unlock on one path, interleaved at every intercepted call; "
-        "optional initial stale link, optional death of a holder inside its critical section, optional fork of a holder whose child calls unlock() on the inherited lock object; non-trivial = at least two processes contended (an EEXIST was seen) "
-        "and the tape switched processes between two calls of one lock()")
-ASSUMPTIONS = ["symlink() is atomic create-or-EEXIST; readlink/remove/kill are atomic individually", "pids are not reused during a run"]
+        "optional initial stale link, optional death of a holder inside its critical section, optional fork of a holder whose child calls unlock() on the inherited lock object; "
+        "each process reuses one lock object for every attempt; in runs with holder deaths each process draws how it waits: bounded (6 attempts per round), persistent (lock() until it succeeds) "
+        "or deferred (DeferredFilesystemLock.deferUntilLocked() polling once per interval on its own simulated clock), so that an owner can die between two attempts of the same waiter; "
+        "after the run the survivors come back alone one by one (tape-chosen order) with their used objects, then a fresh contender; "
+        "non-trivial = at least two processes contended (an EEXIST was seen) and the tape switched processes between two calls of one lock()")
+ASSUMPTIONS = ["symlink() is atomic create-or-EEXIST; readlink/remove/kill are atomic individually", "pids are not reused during a run",
+               "'eventually' is read in bounded form: 3 attempts in a row of one waiter against a stale link nobody else touched, 3 attempts of a waiter that is the only process left, "
+               "1 attempt of a process that comes back alone after the run; a run that uses up its 20000-step budget gives no verdict (the statement does not bound contention)",
+               "a process that dies does so inside its critical section (never in the middle of lock()/unlock())"]
 
 NAME = "/locks/the.lock"
 
@@ -317,43 +335,41 @@ def run(sim):
             sim.fail("deadlock", "", str(e))
         if sched.unfinished():
             # step budget used up (the statement does not bound how long contenders may keep each other busy): no verdict
-            sim.probe("step_budget_exhausted")
+            sim.event("STEP-BUDGET-EXHAUSTED")
             sim.nontrivial = False
             return
         # liveness once faults stop: nobody alive holds the lock any more, so it is free or stale.
         sim.check("internal-no-holder-left", not holders, "", "holders %r at the end" % (holders,))
         res = {}
 
-        def lone(pid, lk, key):
+        def lone_turn(pid, lk, key, wit0, what):
+            w.pid_of["late"] = pid   # the one "late" thread plays each returning process in turn (they run strictly one after the other)
             res[key] = attempt(pid, lk.lock)
-            if res[key]:
-                sim.event(pid, "ACQUIRED-ALONE", "clean" if lk.clean else "unclean")
-                lk.unlock()
-
-        def lone_turn(tname, pid, lk, key, wit0, what):
-            w.pid_of[tname] = pid
-            sched.spawn(tname, lone, pid, lk, key)
-            try:
-                with sim.guard(*(clause("late-contender-raised"))):
-                    sched.run(max_steps=2000)
-            except T.Deadlock as e:
-                sim.fail("deadlock", "late", str(e))
             c, wit = clause("stale-lock-eventually-acquired")
-            sim.check(c, res.get(key) is True, wit or wit0, lambda: "%s could not acquire the lock on its own after all others finished/died: %r; links=%r" % (what, res, w.links))
+            sim.check(c, res[key] is True, wit or wit0, lambda: "%s could not acquire the lock on its own after all others finished/died: %r; links=%r" % (what, res, w.links))
+            sim.event(pid, "ACQUIRED-ALONE", "clean" if lk.clean else "unclean")
+            lk.unlock()
 
-        # (a) the surviving processes come back one at a time, in a tape-chosen order, each with the lock object it has been
-        #     using all along - whatever that object has seen before (owners that were running then, lost races, its own
-        #     earlier tenures) must not keep it from taking a lock that is free or stale now
-        for pid in sim.draw_perm(sorted(finished)):
-            if w.links.get(NAME) is not None:
-                sim.probe("survivor_returns_to_stale_lock")
-            sim.probe("survivor_returns_with_used_object")
-            lone_turn("p%d-again" % pid, pid, objs[pid], "again-%d" % pid, "survivor-reusing-its-lock-object",
-                      "process %d, reusing its lock object," % pid)
-        # (b) a fresh contender with a fresh object
-        pid = 500
-        w.alive.add(pid)
-        lone_turn("p500", pid, lockfile.FilesystemLock(NAME), "locked", "", "a lone fresh contender")
+        def late(order):
+            # (a) the surviving processes come back one at a time, in a tape-chosen order, each with the lock object it has
+            #     been using all along - whatever that object has seen before (owners that were running then, lost races,
+            #     its own earlier tenures) must not keep it from taking a lock that is free or stale now
+            for pid in order:
+                if w.links.get(NAME) is not None:
+                    sim.probe("survivor_returns_to_stale_lock")
+                sim.probe("survivor_returns_with_used_object")
+                lone_turn(pid, objs[pid], "again-%d" % pid, "survivor-reusing-its-lock-object", "process %d, reusing its lock object," % pid)
+            # (b) a fresh contender with a fresh object
+            w.alive.add(500)
+            lone_turn(500, lockfile.FilesystemLock(NAME), "locked", "", "a lone fresh contender")
+
+        sched.spawn("late", late, sim.draw_perm(sorted(finished)))
+        try:
+            with sim.guard(*(clause("late-contender-raised"))):
+                sched.run(max_steps=2000)
+        except T.Deadlock as e:
+            sim.fail("deadlock", "late", str(e))
+        sim.check("internal-late-phase-ran", res.get("locked") is True, "", "late phase did not finish: %r" % (res,))
         sim.check("lock-released-leaves-no-link", NAME not in w.links, "", "link left: %r" % (w.links,))
     finally:
         sched.shutdown()
@@ -361,3 +377,14 @@ def run(sim):
             setattr(lockfile, n, v)
     sim.state((nproc, stale_initial, deaths, min(w.broke_stale, 2), w.race, tuple(sorted(set(styles)))))
     sim.nontrivial = w.eexist > 0 and sim.faults.get("interleave", 0) > 0
+
+
+MUTANTS = [
+    "seeded C50-enoent-rmlink: caught (mutual-exclusion:two-holders, holder-unlock-raised)",
+    "seeded C50-r2-unlock-skips-owner-check: caught (non-holder-unlock-removed-live-link:forked-child)",
+    "seeded C50-r3-cached-owner-liveness (lock object remembers an owner it saw running): missed before the objects' history was put under test; "
+    "caught (stale-lock-eventually-acquired:waiter-reusing-its-lock-object in the run, :survivor-reusing-its-lock-object after it)",
+    "lockfile.py ESRCH branch: 'if self.clean is not None: return False' before rmlink (an object that has held the lock once never breaks a stale lock): "
+    "missed by the fresh-contender-only liveness check; caught (both stale-lock-eventually-acquired witnesses)",
+    "lockfile.py 'if e.errno == errno.ESRCH:' -> '... and self.clean is None:' / '... and clean:': caught (lock-raised:ProcessLookupError)",
+]
